@@ -128,8 +128,9 @@ type c08CloseCase struct {
 
 func c08Trigger(c c08CloseCase) (pre []byte, trigger []byte, script harness.Script, cfg harness.Config) {
 	lmtp := c.Mode != 0
-	cfg = harness.Config{LMTP: lmtp, MaxLineLength: 64}
-	script = harness.Script{LMTPSession: c.Mode == 2, GateStart: c.GateStart, LogoutErr: c.LogoutErr}
+	cfg = harness.Config{LMTP: lmtp, MaxLineLength: 64, AllowInsecureAuth: true}
+	script = harness.Script{LMTPSession: c.Mode == 2, GateStart: c.GateStart, LogoutErr: c.LogoutErr, AuthSession: true, Mechs: []string{"PLAIN"},
+		SASL: []harness.SASLScript{{SkipChallengesWithIR: true}, {SkipChallengesWithIR: true}, {SkipChallengesWithIR: true}, {SkipChallengesWithIR: true}}}
 	var sb strings.Builder
 	for _, l := range c.Prefix {
 		sb.WriteString(l + "\r\n")
@@ -347,8 +348,13 @@ func c08GenClose(t *rapid.T) c08CloseCase {
 	c := c08CloseCase{Mode: rapid.IntRange(0, 2).Draw(t, "mode")}
 	c.Reason = rapid.SampledFrom([]string{"quit", "quit", "errors", "errors", "longline", "longline", "quit", "errors", "timeout", "panic-newsession", "panic-mail", "panic-rcpt", "panic-data", "panic-bdat", "panic-bdat-early", "panic-bdat-midway"}).Draw(t, "reason")
 	g := greetWord(c.Mode != 0) + " cli"
-	switch rapid.IntRange(0, 4).Draw(t, "prefix") {
+	switch rapid.IntRange(0, 6).Draw(t, "prefix") {
 	case 0:
+	case 5:
+		// authenticated, then greeted again: still the one session
+		c.Prefix = []string{g, "AUTH PLAIN AHUAcHc=", g}
+	case 6:
+		c.Prefix = []string{g, "AUTH PLAIN AHUAcHc=", "MAIL FROM:<s@x>", g, "MAIL FROM:<s@x>"}
 	case 1:
 		c.Prefix = []string{g}
 	case 2:
